@@ -34,6 +34,9 @@ ApplyMap(f, v) ==
                                                   \* for odd bare data: None is a value like any other
     [] f = "tag" -> [v EXCEPT !.c = @ \cup {"t"}, !.h = TRUE]          \* user callable adding a key
     [] f = "var" -> [d |-> v.d + 10, c |-> v.c \cup {"variable"}, h |-> TRUE]   \* Variable("x", +10)
+    \* a Variable whose description has keys named like methods (run="2023A", fill=1): Variable.__getattr__
+    \* exposes them as DATA attributes; an element is recognised by callable methods, so it is a callable
+    [] f = "varattr" -> [d |-> v.d + 10, c |-> v.c \cup {"variable"}, h |-> TRUE]
     [] f = "upd" -> [v EXCEPT !.c = @ \cup {"k"}, !.h = TRUE]          \* UpdateContext("k", 1)
     [] f = "mkfn" -> [v EXCEPT !.c = @ \cup {"output"}, !.h = TRUE]    \* MakeFilename("out")
 
@@ -56,7 +59,8 @@ Reverse == [t |-> "reverse"]
 End == [t |-> "end"]
 Sum == [t |-> "sum"]                      \* fill/compute accumulator run through adapters.Run
 Last == [t |-> "last"]                    \* user fill/compute element: yields the last filled value
-SplitSt(brs, bs) == [t |-> "split", brs |-> brs, bs |-> bs]   \* branches: Map(f) | Filter(p) | Sum
+SplitSt(brs, bs) == [t |-> "split", brs |-> brs, bs |-> bs]   \* branches: Map(f) | Filter(p) | Sum | SeqSum(f)
+SeqSum(f) == [t |-> "seqsum", f |-> f]      \* the Sequence object (f, Sum()) as a branch
 Bad(k) == [t |-> "bad", k |-> k]          \* not convertible to an element
 
 Streaming(st) == st.t \in {"map", "filter", "slice", "lagk", "count", "runif", "split"}
@@ -88,14 +92,29 @@ BranchBlock(br, blk) ==      \* results a per-value branch yields for a block
           [] OTHER -> <<>>) \o BranchBlock(br, Tail(blk))
 RECURSIVE SumD(_)
 SumD(blk) == IF blk = <<>> THEN 0 ELSE Head(blk).d + SumD(Tail(blk))
-RECURSIVE BlockOut(_, _, _)
-BlockOut(brs, j, blk) == IF j > Len(brs) THEN <<>> ELSE BranchBlock(brs[j], blk) \o BlockOut(brs, j + 1, blk)
-SplitBlock(st, loc, blk) ==    \* new loc and emitted values after one block
+\* a branch given as a Sequence OBJECT (f, Sum()): a "sequence" branch, run once per block; Sum is
+\* not reset between runs, so it yields the running total after every block.  However the elements
+\* of that branch are grouped into nested Sequences, it stays a per-block branch (regrouping).
+Mapped(f, blk) == [i \in 1..Len(blk) |-> ApplyMap(f, blk[i])]
+SeqSumTot(br, loc, j, blk) == loc.tot[j] + SumD(Mapped(br.f, blk))
+SeqSumCtx(br, loc, j, blk) == IF blk # <<>> THEN ApplyMap(br.f, blk[Len(blk)]).c ELSE loc.c[j]
+RECURSIVE BlockOut(_, _, _, _, _)
+BlockOut(brs, loc, j, blk, eof) ==
+  IF j > Len(brs) THEN <<>>
+  ELSE (IF brs[j].t = "seqsum"
+        THEN (IF blk # <<>> \/ (eof /\ ~loc.any)       \* every block; an empty flow: invoked once
+              THEN <<SumVal(SeqSumTot(brs[j], loc, j, blk), SeqSumCtx(brs[j], loc, j, blk))>> ELSE <<>>)
+        ELSE BranchBlock(brs[j], blk)) \o BlockOut(brs, loc, j + 1, blk, eof)
+SplitBlock(st, loc, blk, eof) ==    \* new loc and emitted values after one block
   [loc |-> [buf |-> <<>>,
-            tot |-> [j \in 1..Len(st.brs) |-> IF st.brs[j].t = "sum" THEN loc.tot[j] + SumD(blk) ELSE 0],
-            c |-> [j \in 1..Len(st.brs) |-> IF st.brs[j].t = "sum" /\ blk # <<>> THEN blk[Len(blk)].c ELSE loc.c[j]],
+            tot |-> [j \in 1..Len(st.brs) |-> IF st.brs[j].t = "sum" THEN loc.tot[j] + SumD(blk)
+                                              ELSE IF st.brs[j].t = "seqsum" THEN SeqSumTot(st.brs[j], loc, j, blk)
+                                              ELSE 0],
+            c |-> [j \in 1..Len(st.brs) |-> IF st.brs[j].t = "sum" /\ blk # <<>> THEN blk[Len(blk)].c
+                                            ELSE IF st.brs[j].t = "seqsum" THEN SeqSumCtx(st.brs[j], loc, j, blk)
+                                            ELSE loc.c[j]],
             any |-> loc.any \/ blk # <<>>],
-   em |-> BlockOut(st.brs, 1, blk)]
+   em |-> BlockOut(st.brs, loc, 1, blk, eof)]
 RECURSIVE SplitFinal(_, _, _)
 SplitFinal(st, loc, j) == IF j > Len(st.brs) THEN <<>>
    ELSE (IF st.brs[j].t = "sum" THEN <<SumVal(loc.tot[j], loc.c[j])>> ELSE <<>>) \o SplitFinal(st, loc, j + 1)
@@ -125,7 +144,7 @@ OnHave(st, loc, v) ==
     [] st.t = "sum" -> [loc |-> [tot |-> loc.tot + v.d, c |-> v.c], em |-> <<>>]
     [] st.t = "last" -> [loc |-> [has |-> TRUE, prev |-> v], em |-> <<>>]
     [] st.t = "split" -> LET l2 == [loc EXCEPT !.buf = Append(@, v)] IN
-                         IF Len(l2.buf) = st.bs THEN SplitBlock(st, l2, l2.buf) ELSE [loc |-> l2, em |-> <<>>]
+                         IF Len(l2.buf) = st.bs THEN SplitBlock(st, l2, l2.buf, FALSE) ELSE [loc |-> l2, em |-> <<>>]
 
 \* values emitted when the stage finds its input exhausted
 OnEof(st, loc) ==
@@ -134,7 +153,7 @@ OnEof(st, loc) ==
     [] st.t = "reverse" -> Rev(loc.buf)
     [] st.t = "sum" -> <<SumVal(loc.tot, loc.c)>>
     [] st.t = "last" -> IF loc.has THEN <<loc.prev>> ELSE <<>>
-    [] st.t = "split" -> LET r == SplitBlock(st, loc, loc.buf) IN r.em \o SplitFinal(st, r.loc, 1)
+    [] st.t = "split" -> LET r == SplitBlock(st, loc, loc.buf, TRUE) IN r.em \o SplitFinal(st, r.loc, 1)
     [] OTHER -> <<>>
 
 \* the stage stops without asking its input again
